@@ -35,9 +35,10 @@ def solution(step):
     return sum(evalterm.ev(t, {}) * rmat(m) for t, m in step["sol"])
 
 
-def callables(step, t_off):
-    """velocity gradient callable and pathline for one step starting at absolute time t_off."""
-    M = rmat(step["M"])
+def callables(step, t_off, rate=1.0):
+    """velocity gradient callable and pathline for one step starting at absolute time t_off.
+    rate = k integrates k M over T / k (constant-g steps only): the flow map is unchanged."""
+    M = rmat(step["M"]) * rate
     a = step["g"]["a"][0] / step["g"]["a"][1]
     via = step["g"]["via"]
     if via == "x":
@@ -47,7 +48,7 @@ def callables(step, t_off):
     return (lambda t, x: M), (lambda t: np.zeros(3))
 
 
-def run_case(pd, case, cfg, parts, asm, ev_out, tid, use_update_all=False):
+def run_case(pd, case, cfg, parts, asm, ev_out, tid, use_update_all=False, rate=1.0):
     phase, fabric, regime, n, M, chi, lam = cfg
     par = dict(M=M, chi=chi, asm=asm[0], phiOl=asm[1], x=[lam, 0])
     params = layerb.make_params(par)
@@ -65,8 +66,8 @@ def run_case(pd, case, cfg, parts, asm, ev_out, tid, use_update_all=False):
     t_abs = 0.0
     logdet = 0.0
     for step in case["steps"]:
-        T = step["T"][0] / step["T"][1]
-        getL, getx = callables(step, t_abs)
+        T = step["T"][0] / step["T"][1] / rate
+        getL, getx = callables(step, t_abs, rate)
         Msym = rmat(step["M"])
         emax = np.abs(np.linalg.eigvalsh((Msym + Msym.T) / 2)).max()
         tr = step["trace"][0] / step["trace"][1]
@@ -86,8 +87,8 @@ def run_case(pd, case, cfg, parts, asm, ev_out, tid, use_update_all=False):
                 e["det_e9"] = 0
                 ev_out.append(e)
                 return None
-            gi0 = evalterm.ev(step["gint"], dict(s=s0))
-            gi1 = evalterm.ev(step["gint"], dict(s=s1))
+            gi0 = evalterm.ev(step["gint"], dict(s=s0 * rate))
+            gi1 = evalterm.ev(step["gint"], dict(s=s1 * rate))
             e["dstrain_e6"] = cap(emax * (gi1 - gi0) * 1e6)
             logdet += tr * (gi1 - gi0)
             e["det_e9"] = cap(abs(np.linalg.det(F) / (detref * np.exp(logdet)) - 1.0) * 1e9)
@@ -144,12 +145,12 @@ def main(tier):
     gen = run_tlc("DefGrad", workers=8, timeout=900)
     chk.add_tlc("DefGrad", gen, "closed-form families x F0 x durations x g classes + piecewise nilpotent products; semigroup / det / equivariance / L.F-vs-F.L lemmas")
     cases = parse_printed_json(gen.output, "CASE")
-    if len(cases) < 900:
+    if len(cases) < 1100:
         raise MachineryError(f"DefGrad emitted only {len(cases)} cases")
     pd = quiet_pydrex()
     rng = np.random.default_rng(SEED)
     order = rng.permutation(len(cases))
-    take = order[:170] if quick else order
+    take = order[:200] if quick else order
     events, meta = [], {}
     fams = {}
     for j, ci in enumerate(take):
@@ -158,12 +159,17 @@ def main(tier):
         parts = [1, 2, 5][j % 3]
         asm = ASMS[(j // 3) % len(ASMS)]
         ua = (j % 7 == 3)
+        rate = 1.0
+        st0 = case["steps"][0]
+        if case["kind"] == "single" and st0["T"] == [9, 200] and st0["g"]["via"] == "const":
+            # short history as 50 very short calls at extreme rate factors (laboratory 1e3, geological 1e-15)
+            parts, rate = 50, [1e3, 1e-15, 1.0][j % 3]
         start = len(events)
-        run_case(pd, case, cfg, parts, asm, events, tid=j, use_update_all=ua)
+        run_case(pd, case, cfg, parts, asm, events, tid=j, use_update_all=ua, rate=rate)
         fam = case["steps"][0]["fam"] + ("/" + case["steps"][0]["g"]["via"]) + ("/seq" if case["kind"] == "sequence" else "")
         fams[fam] = fams.get(fam, 0) + 1
         for e in events[start:]:
-            meta[e["id"]] = dict(kind="closed-form", family=fam, config=list(cfg), parts=parts, update_all=ua, asm=asm[0], case_index=int(ci))
+            meta[e["id"]] = dict(kind="closed-form", family=fam, config=list(cfg), parts=parts, update_all=ua, asm=asm[0], case_index=int(ci), rate=rate)
             if "rel" in e:
                 chk.maximum("relative_error_vs_exact", e.pop("rel"))
         chk.count(("case", int(ci), j % len(CONFIGS), parts, ua))
@@ -191,7 +197,7 @@ def main(tier):
     for rj in rejects:
         m = meta.get(rj["id"], {})
         for clause in rj["clauses"]:
-            sig = dict(clause=clause, kind=m.get("kind"), family=m.get("family"), update_all=m.get("update_all"))
+            sig = dict(clause=clause, kind=m.get("kind"), family=m.get("family"), update_all=m.get("update_all"), rate=m.get("rate"))
             chk.violation(sig, f"{clause} (N={rj['n']}, strain_e6={rj['strain_e6']}, {m})", dict(meta=m, event=events[rj["id"]], case=cases[m["case_index"]] if "case_index" in m else None))
     # negative controls: F.L instead of L.F would be off by O(0.1); emulate by corrupting measures
     good = [dict(id=0, ev="Start", tid=0), dict(id=1, ev="Update", tid=0, ok=True, dstrain_e6=200000, det_e9=10, rel_e9=6500000),
